@@ -7,6 +7,7 @@
     c18.lit                 src                          -> S(x<decoded bytes>) | N
     c18.strip_prefix ..     [[src,..],..] input off dir  -> br=S(i)|N;rem=<view>;off=..;dir=S|E|B
     c18.trim_start_matches  [src,..] input off dir       -> rem=<view>;off=..;dir=..
+    c18.skip / c18.skip_back input n off dir             -> rem=<view>;off=..;dir=..
     ([dir]: S = FromStart, E = FromEnd; the parser is Parser::with_start_offset(input, off),
     after [skip_back(0)] when dir = E.) *)
 From Coq Require Import List ZArith Bool String.
@@ -76,6 +77,12 @@ Definition run_trim (s : side) (alts input off dir : val) : option string :=
       end
   end.
 
+Definition run_skip (back : bool) (input n off dir : val) : string :=
+  let inp := as_bytes input in
+  let p := mkP inp (as_Z off) (dir_of dir) in
+  if back then show_fields (show_parser AtEnd inp (skip_back_m p (as_Z n)))
+  else show_fields (show_parser AtStart inp (skip_m p (as_Z n))).
+
 Definition c18_run (fam : string) (args : list val) : option string :=
   match args with
   | [src] =>
@@ -88,6 +95,8 @@ Definition c18_run (fam : string) (args : list val) : option string :=
       else if String.eqb fam "c18.rfind_skip" then run_match find_macro AtEnd a input off dir
       else if String.eqb fam "c18.trim_start_matches" then run_trim AtStart a input off dir
       else if String.eqb fam "c18.trim_end_matches" then run_trim AtEnd a input off dir
+      else if String.eqb fam "c18.skip" then Some (run_skip false a input off dir)
+      else if String.eqb fam "c18.skip_back" then Some (run_skip true a input off dir)
       else None
   | _ => None
   end.
